@@ -87,6 +87,8 @@ def gen_ops(ctx):
                     dv2 = list(ev); k = r.below(n); dv2[k] = one_channel_diff(do_, dv2[k], c)
                     ops.append(line("imgeq", org, "full", "full", w, h, a1, a2, 0, 0, 0, ev, dv2))
                 ops.append(line("imgeq", org, "full", "full", w, h, a1, a2, 0, 0, 1, ev, vals(r, do_, (w + 1) * h)))
+                # same pixel COUNT, other shape (h x w) with the same pixel sequence: equal only if the image is square
+                ops.append(line("imgeq", org, "full", "full", w, h, a1, a2, 0, 0, 2, ev, list(ev)))
     for cross in CROSS:
         so_, do_ = cross.split(">")
         for sk in (["full", "sub"] if not th else KINDS):
